@@ -7,6 +7,7 @@ on, re-read from /repo's current tree with Python's `ast` on every run:
     `prefix == ''` test (as a shape string);
   * `_create_enum`: a shape string of the member loop (private skip, `ident[prefixlen:]`
     versus `_strip_symbol`, `.lower()`, `is_bitfield` class choice);
+  * `resolve_aliases` and the statements of `_create_const` that compute `unaliased` (shape strings);
   * `_create_const`: the if/elif chain on `unaliased` with, per branch, the `ast.TYPE_*`
     constants tested and base/exponent of `symbol.const_int % B ** E` (E an integer literal or
     `8 * struct.calcsize('<c>')`, evaluated on this platform); the TYPE_* constant
@@ -186,6 +187,26 @@ def read_const_branches(fn):
     return out, bool_lits
 
 
+def read_unaliased_prelude(fn):
+    """the statements of the const_int branch of _create_const before the chain on `unaliased`"""
+    for node in ast.walk(fn):
+        if isinstance(node, ast.If) and src(node.test) == 'symbol.const_int is not None':
+            out = []
+            for stmt in node.body:
+                if isinstance(stmt, ast.If) and isinstance(stmt.test, ast.Compare) and \
+                        isinstance(stmt.test.left, ast.Name) and stmt.test.left.id == 'unaliased':
+                    return [src(s).replace('\n', ' ; ') for s in out]
+                out.append(stmt)
+    raise Shape('const_int branch of _create_const not found')
+
+
+def read_resolve_aliases(tree):
+    """statements of Transformer.resolve_aliases (docstring dropped; comments are not part of the ast)"""
+    fn = find_method(tree, 'Transformer', 'resolve_aliases')
+    body = [s for s in fn.body if not (isinstance(s, ast.Expr) and isinstance(s.value, ast.Constant))]
+    return [src(s).replace('\n', ' ; ') for s in body]
+
+
 def read_const_filters(fn):
     hidden = None
     suffix = None
@@ -248,6 +269,8 @@ def main():
         wraps, chain_shape = read_wrap_chain(cc)
         branches, bool_lits = read_const_branches(cc)
         hidden, suffix = read_const_filters(cc)
+        prelude = read_unaliased_prelude(cc)
+        ra_shape = read_resolve_aliases(tree)
         ep = find_method(tree, 'Transformer', '_enum_common_prefix')
         threshold, sep, inner_shape, outer_shape = read_enum_prefix(ep)
         ce = find_method(tree, 'Transformer', '_create_enum')
@@ -296,6 +319,13 @@ def constWraps : List (List (List Char) × Nat × Nat) := %s
 /-- the default branch of that chain -/
 def constWrapShape : List String := %s
 
+/-- `_create_const`, const_int branch: the statements that compute `typeval` and `unaliased`
+    before the chain, unparsed -/
+def constUnaliasedShape : List String := %s
+
+/-- statements of `Transformer.resolve_aliases`, unparsed -/
+def resolveAliasesShape : List String := %s
+
 /-- which TYPE_* constant each branch of `_create_const` assigns to `typeval` (const_int: the
     default when the symbol has no base type) -/
 def constBranches : List (List Char × List Char) := %s
@@ -325,6 +355,8 @@ end GIVerif.Gen
        lean_list([lean_str(s) for s in enum_shape]),
        lean_list(['(%s, %d, %d)' % (lean_list([lean_chars(n) for n in names]), b, e) for names, b, e in wraps]),
        lean_list([lean_str(s) for s in chain_shape]),
+       lean_list([lean_str(s) for s in prelude]),
+       lean_list([lean_str(s) for s in ra_shape]),
        lean_list(['(%s, %s)' % (lean_chars(a), lean_chars(b)) for a, b in branches]),
        lean_chars(bool_lits[0]), lean_chars(bool_lits[1]),
        lean_chars(hidden), lean_chars(suffix), lean_str(idents[0]),
